@@ -233,9 +233,18 @@ _seq_op = st.one_of(
 )
 
 
+_early_listen = st.tuples(st.just("listen"), st.just("cls"), st.integers(0, 7), _opts).map(list)
+_sub2 = st.tuples(st.just("subclass"), st.lists(st.integers(0, 7), min_size=2, max_size=2, unique=True)).map(list)
+_sub1 = st.tuples(st.just("subclass"), st.lists(st.integers(0, 7), min_size=1, max_size=1)).map(list)
+
+
 @st.composite
 def _seq_cases(draw):
-    return {"ops": draw(st.lists(_seq_op, min_size=3, max_size=30))}
+    # a hierarchy first (so that later registrations hit classes with several bases and late subclasses see several
+    # already-established parents), then the mixed program
+    prefix = draw(st.lists(st.one_of(_sub1, _sub1, _sub2, _early_listen), min_size=0, max_size=6))
+    body = draw(st.lists(st.one_of(_seq_op, _sub2), min_size=3, max_size=26))
+    return {"ops": prefix + body}
 
 
 # ------------------------------------------------------------------------------------------- engine events (real targets)
